@@ -106,3 +106,25 @@ fn c04_q_read_all_any_count() {
     kani::cover!(count == 0 && budget == -16);
     core::mem::forget(r);
 }
+
+/// C12: the chunk list reader reserves nothing that grows with the declared chunk count / frame byte count
+#[kani::proof]
+#[kani::unwind(4)]
+#[kani::stub(alloc::fmt::format, crate::vklib::empty_format)]
+#[kani::stub(std::vec::Vec::with_capacity, crate::vklib::checking_with_capacity_nostop)]
+fn c12_q_read_all_declared_count() {
+    let count: u32 = kani::any();
+    let budget: i64 = kani::any();
+    // the byte budget parse_frame passes: frame size (u32) - 16
+    kani::assume(budget >= -16 && budget <= 0xffff_ffff - 16);
+    let tail: [u8; 3] = kani::any();
+    unsafe {
+        crate::vklib::C12_INPUT_LEN = 19;
+    }
+    native_reservation_reset();
+    let mut reader = AseReader::with(&tail[..]);
+    let r = Chunk::read_all(count, budget, &mut reader);
+    kani::cover!(count == u32::MAX && budget == 0xffff_ffff - 16);
+    native_reservation_check();
+    core::mem::forget(r);
+}
